@@ -15,12 +15,13 @@ from fractions import Fraction as Fr
 from hypothesis import strategies as st
 
 import tracklib.algo.interpolation as interp
+from tracklib.algo.cinematics import computeAbsCurv
 from tracklib.core.obs import Obs
 from tracklib.core.obs_coords import ENUCoords
 from tracklib.core.track import Track
 
 from vt import gen
-from vt.core import SubCheck, Violation
+from vt.core import HarnessError, SubCheck, Violation
 
 ASSUMPTIONS = [
     "ENU tracks of 2..10 fixes with strictly increasing integer-millisecond timestamps in 1970..2099; repeated positions allowed",
@@ -33,6 +34,10 @@ ASSUMPTIONS = [
     "spatial exact: all leg lengths and ds are dyadic rationals (axis-parallel or 3-4-5 legs) so floor(L/ds) is decided exactly; "
     "spatial float: cases with |L/ds - round(L/ds)| < 1e-9 are outside the domain (count decided by rounding)",
     "at an abscissa that coincides with a repeated fix either copy's height and timestamp is accepted",
+    "pre-history (case['pre']): before the resampling call the Track object may have had its abs_curv computed (fresh), "
+    "or computed and then a fix moved back / the first fix dropped (out of date), or its speed estimated; the fixes "
+    "themselves are always those of the case.  With via='algo' (interpolation.resample called directly) the feature "
+    "table is not demanded to be reset",
     "spatial timestamps: +-1 ms + 5e-3 ms (float seconds ~1.6e9 weighted by two rounded weights) + time slope x abscissa uncertainty",
 ]
 
@@ -58,12 +63,46 @@ def _valid_track(case):
     return all(len(p) == 3 and all(math.isfinite(c) for c in p) for p in pts)
 
 
+PRES = [None, None, "abscurv-fresh", "abscurv-stale-moved", "abscurv-stale-dropped-first-gt",
+        "abscurv-stale-dropped-first-remove", "speed"]
+
+
 def _build(case):
+    """the track of the case; case["pre"] names what happened to the Track object BEFORE the resampling call.  The
+    pre-history never changes the fixes the case describes (positions, timestamps): it only leaves derived
+    state behind (a fresh or an out-of-date abs_curv feature, a speed feature), which resampling must not use
+    in place of the track's geometry."""
     T = _times(case)
-    feats = {}
-    for c in range(case.get("nf", 0)):
-        feats["f%d" % c] = [10.0 * c + i for i in range(len(T))]
-    return gen.make_track([tuple(p) for p in case["pts"]], T, feats), T
+    pts = [tuple(p) for p in case["pts"]]
+    pre = case.get("pre")
+
+    def feats(n):
+        return {"f%d" % c: [10.0 * c + i for i in range(n)] for c in range(case.get("nf", 0))}
+
+    if pre in ("abscurv-stale-dropped-first-gt", "abscurv-stale-dropped-first-remove") and T[0] >= 1000:
+        tr = gen.make_track([(pts[0][0] + 3.0, pts[0][1] - 4.0, pts[0][2])] + pts, [T[0] - 1000] + T, feats(len(T) + 1))
+        computeAbsCurv(tr)
+        if pre.endswith("gt"):
+            tr = tr > 1
+        else:
+            tr.removeObsList([0])
+    else:
+        tr = gen.make_track(pts, T, feats(len(T)))
+        if pre == "abscurv-fresh":
+            computeAbsCurv(tr)
+        elif pre == "abscurv-stale-moved":
+            k = len(pts) // 2
+            pos = tr.getObs(k).position
+            pos.setX(pts[k][0] + 2.5)
+            pos.setY(pts[k][1] + 6.0)
+            computeAbsCurv(tr)
+            pos.setX(pts[k][0])
+            pos.setY(pts[k][1])
+        elif pre == "speed":
+            tr.estimate_speed()
+    if tr.size() != len(pts):
+        raise HarnessError("pre-history %r changed the track size" % pre)
+    return tr, T
 
 
 def _read(tr):
@@ -446,6 +485,7 @@ def body_spatial_exact(case):
     cls, nt = _cls_spatial(case, lens, legs, got, on_vertex)
     cls.append("ds-divides-L" if q.denominator == 1 else "ds-does-not-divide")
     cls.append("via-" + via)
+    cls.append("pre-%s" % case.get("pre"))
     if Fr(ds) > S[-1]:
         cls.append("ds>L")
     if S[-1] == 0:
@@ -483,6 +523,7 @@ def body_spatial_float(case):
         _check_no_features(res, got, "features-not-reset")
     cls, nt = _cls_spatial(case, lens, legs, got, on_vertex)
     cls.append("via-" + via)
+    cls.append("pre-%s" % case.get("pre"))
     if ds > L:
         cls.append("ds>L")
     return {"nt": nt, "cls": cls}
@@ -542,7 +583,8 @@ _T0S = st.one_of(st.integers(86400, 4102444800 - 11 * 86400).map(lambda s: s * 1
 @st.composite
 def _ttrack(draw):
     n = draw(_NS)
-    return {"t0": draw(_t0()), "dt": draw(_dts(n)), "pts": draw(_points(n)), "nf": draw(st.integers(0, 1))}
+    return {"t0": draw(_t0()), "dt": draw(_dts(n)), "pts": draw(_points(n)), "nf": draw(st.integers(0, 1)),
+            "pre": draw(st.sampled_from(PRES))}
 
 
 @st.composite
@@ -574,6 +616,7 @@ def strat_temporal_step_(draw):
     case["via"] = draw(st.sampled_from(["resample", "resample", "resample-kw", "algo"]))
     if case["via"] == "algo":
         case["nf"] = 0
+        case["pre"] = None
     return case
 
 
@@ -613,6 +656,7 @@ def strat_temporal_instants_(draw):
     case["via"] = draw(st.sampled_from(vias))
     if case["via"] == "algo":
         case["nf"] = 0
+        case["pre"] = None
     return case
 
 
@@ -674,7 +718,7 @@ def strat_spatial_exact_(draw):
     ds = d8 // 8 if (d8 % 8 == 0 and draw(st.booleans())) else d8 / 8.0
     via = draw(st.sampled_from(["resample", "resample", "resample-default", "resample-kw", "algo"]))
     return {"t0": draw(_t0()), "dt": draw(_dts(n)), "pts": pts, "nf": 0 if via == "algo" else draw(st.integers(0, 1)),
-            "ds": ds, "via": via}
+            "ds": ds, "via": via, "pre": None if via == "algo" else draw(st.sampled_from(PRES))}
 
 
 @st.composite
@@ -702,7 +746,7 @@ def strat_spatial_float_(draw):
         ds = draw(st.floats(0.01, 10.0))
     via = draw(st.sampled_from(["resample", "resample", "resample-default", "resample-kw", "algo"]))
     return {"t0": draw(_t0()), "dt": draw(_dts(n)), "pts": pts, "nf": 0 if via == "algo" else draw(st.integers(0, 1)),
-            "ds": ds, "via": via}
+            "ds": ds, "via": via, "pre": None if via == "algo" else draw(st.sampled_from(PRES))}
 
 
 def strat_temporal_step():
